@@ -328,7 +328,7 @@ impl Gen {
                         2 => Op { op: "m_truncate".into(), h, a: self.index(len), ..Default::default() },
                         3 | 4 => Op { op: "m_try_reclaim".into(), h, a: self.reserve_arg(), ..Default::default() },
                         5 => Op { op: "m_reserve".into(), h, a: self.reserve_arg(), ..Default::default() },
-                        6 => Op { op: "m_extend".into(), h, a: abs(self.r.below(self.maxlen + 1)), mode: self.r.below(5) as i64, ..Default::default() },
+                        6 => Op { op: "m_extend".into(), h, a: abs(self.r.below(self.maxlen + 1)), mode: self.r.below(10) as i64, ..Default::default() },
                         _ => Op { op: "m_resize".into(), h, a: abs(self.r.below(2 * self.maxlen + 1)), val: 200 + self.r.below(16) as u8, ..Default::default() },
                     });
                 }
@@ -381,14 +381,14 @@ impl Gen {
             return match k {
                 0 => Op { op: "b_new".into(), ..Default::default() },
                 1 => Op { op: "b_static".into(), a: abs(self.r.below(64)), b: abs(n), ..Default::default() },
-                2 => Op { op: "b_from_vec".into(), a: abs(n), b: abs(self.r.below(4)), ..Default::default() },
+                2 => Op { op: "b_from_vec".into(), a: abs(n), b: abs(self.r.below(4)), mode: (self.r.below(3) == 0) as i64, ..Default::default() },
                 3 => Op { op: "b_from_box".into(), a: abs(n), ..Default::default() },
                 4 => Op { op: "b_copy".into(), a: abs(n), ..Default::default() },
                 5 => Op { op: "b_from_owner".into(), a: abs(n.max(1)), mode: if self.r.chance(10) { 1 } else { 0 }, ..Default::default() },
                 6 => Op { op: "m_new".into(), ..Default::default() },
                 7 => Op { op: "m_with_capacity".into(), a: abs(self.r.below(2 * self.maxlen + 1)), ..Default::default() },
                 8 => Op { op: "m_zeroed".into(), a: abs(n), ..Default::default() },
-                9 => Op { op: "m_from_slice".into(), a: abs(n), ..Default::default() },
+                9 => Op { op: "m_from_slice".into(), a: abs(n), mode: if self.r.chance(50) { 0 } else { 1 + self.r.below(4) as i64 }, ..Default::default() },
                 _ => Op { op: "b_from_iter".into(), a: abs(n), ..Default::default() },
             };
         }
@@ -455,7 +455,7 @@ impl Gen {
                         0 if room => Op { op: "m_split_off".into(), h, a: self.cap_index(len, cap), ..Default::default() },
                         1 if room => Op { op: "m_split_to".into(), h, a: self.index(len), ..Default::default() },
                         2 if room => Op { op: "m_split".into(), h, ..Default::default() },
-                        3 => Op { op: "m_truncate".into(), h, a: self.index(len), ..Default::default() },
+                        3 => Op { op: "m_truncate".into(), h, a: self.index(len), mode: self.r.chance(25) as i64, ..Default::default() },
                         4 if self.r.chance(30) => Op { op: "m_clear".into(), h, ..Default::default() },
                         5 => {
                             let a = if self.r.chance(self.bad_pct()) { rel("imax", 1) } else { abs(self.r.below(2 * self.maxlen + 1)) };
@@ -463,7 +463,7 @@ impl Gen {
                         }
                         6 | 7 => Op { op: "m_reserve".into(), h, a: self.reserve_arg(), ..Default::default() },
                         8 | 9 => Op { op: "m_try_reclaim".into(), h, a: self.reserve_arg(), ..Default::default() },
-                        10 | 11 => Op { op: "m_extend".into(), h, a: abs(self.r.below(self.maxlen + 1)), mode: self.r.below(5) as i64, ..Default::default() },
+                        10 | 11 => Op { op: "m_extend".into(), h, a: abs(self.r.below(self.maxlen + 1)), mode: self.r.below(10) as i64, ..Default::default() },
                         12 => Op { op: "m_put_bytes".into(), h, a: abs(self.r.below(self.maxlen + 1)), val: 200 + self.r.below(16) as u8, ..Default::default() },
                         13 => Op { op: "m_fill_spare".into(), h, ..Default::default() },
                         14 => Op { op: "m_write_at".into(), h, a: abs(self.r.below(64)), val: 220 + self.r.below(16) as u8, ..Default::default() },
